@@ -163,4 +163,18 @@ def c02_5(c: Ctx) -> None:
     check_handler_task(c, u, tasg.value, tasg.value.args[0])
 
 
+
+@ob('C02.6', 'WMW', 'a bus has one queue for its whole life: event_queue is created once in _start() (before _is_running = True) and never replaced or reset (same invariant as C14.3): '
+    'events still queued when the queue object is swapped would be lost or overtaken')
+def c02_6(c: Ctx) -> None:
+    from .c14 import queue_invariant
+
+    why = queue_invariant(c)
+    st = c.unit(SVC, 'EventBus._start')
+    if not why:
+        c.ok(where(st), 'event_queue is assigned only in __init__ (None) and once in _start()')
+    for w in why:
+        c.fail(st, f'queue invariant broken: {w}', 'the queue object of a bus can be replaced / dropped: events enqueued on the old object are lost or processed out of order')
+
+
 OBLIGATIONS = ob.obs
